@@ -139,7 +139,7 @@ class C17(Check):
             t = Terminal(ec)
             t.position = 1005
             try:
-                await asyncio.wait_for(t.read_eeprom(), 20)
+                await asyncio.wait_for(t.read_eeprom(), 120)
                 idn = [t.vendorId, t.productCode, t.revisionNo, t.serialNo]
                 d = [[k, v] for k, v in t.eeprom.items()]
                 if 41 in t.eeprom:
